@@ -25,6 +25,10 @@ class Leaf:
     value: ast.expr | None
     stmts: list[ast.stmt] = field(default_factory=list)
     evaluated: list[str] = field(default_factory=list)  # atoms in evaluation order
+    ver: dict[str, int] = field(default_factory=dict)  # versions of locals rebound after they had been tested (see decision_tree)
+
+    def versioned(self, e: ast.expr | None) -> ast.expr | None:
+        return _versioned(e, self.ver) if e is not None else None
 
     def val(self) -> str | None:
         return norm(self.value) if self.value is not None else None
@@ -43,6 +47,37 @@ class Leaf:
     def rval(self, calls: bool = False) -> str | None:
         v = self.resolved(calls)[1]
         return norm(v) if v is not None else None
+
+
+def _versioned(e: ast.AST, ver: dict[str, int]) -> Any:
+    """x -> x__v<k> for locals that were rebound after an atom had been decided on them: a later test is a different atom."""
+    if not ver or not any(isinstance(n, ast.Name) and ver.get(n.id) for n in ast.walk(e)):
+        return e
+    import copy
+
+    e = copy.deepcopy(e)
+    for n in ast.walk(e):
+        if isinstance(n, ast.Name) and ver.get(n.id):
+            n.id = f"{n.id}__v{ver[n.id]}"
+    return e
+
+
+class _Recording(dict):  # type: ignore[type-arg]
+    """The assignment handed to the evaluator: records which atoms were read (evaluation order)."""
+
+    def __init__(self, base: dict[str, Any], order: list[str]) -> None:
+        super().__init__(base)
+        self._order = order
+
+    def __getitem__(self, k: str) -> Any:
+        if k not in self._order:
+            self._order.append(k)
+        return super().__getitem__(k)
+
+    def get(self, k: str, default: Any = None) -> Any:  # type: ignore[override]
+        if k in self and k not in self._order:
+            self._order.append(k)
+        return super().get(k, default)
 
 
 class _Leave(Exception):
@@ -123,8 +158,25 @@ def decision_tree(
             from .normalize import PathEnv
             pe = PathEnv(allow_calls=(resolve == "calls"))
 
+        ver: dict[str, int] = {}
+
         def evaluate(e: ast.expr) -> Any:
-            return _AliasEval(assign, aliases, order, call_hook, sized).ev(e)
+            return _AliasEval(_Recording(assign, order), aliases, order, call_hook, sized).ev(_versioned(e, ver))
+
+        def vname(x: str) -> str:
+            return f"{x}__v{ver[x]}" if ver.get(x) else x
+
+        def rebind(names: Any) -> None:
+            # a local that was already tested on this path and is bound again: later tests on it are other atoms
+            import re
+            for x in names:
+                cur = vname(x)
+                pat = re.compile(rf"(?<![\w.]){re.escape(cur)}(?!\w)")
+                if any(pat.search(k) for k in order):
+                    ver[x] = ver.get(x, 0) + 1
+
+        def stores(st: ast.AST) -> set[str]:
+            return {n.id for n in ast.walk(st) if isinstance(n, ast.Name) and isinstance(n.ctx, ast.Store)}
 
         def block(ss: list[ast.stmt]) -> None:
             for st in ss:
@@ -156,6 +208,7 @@ def decision_tree(
                         if isinstance(r, list):  # a summary of the loop, written as statements: interpreted in its place
                             block(r)
                             continue
+                    rebind(stores(st))
                     executed.append(st)
                 elif isinstance(st, ast.Try):
                     if not try_as_body:
@@ -165,23 +218,27 @@ def decision_tree(
                     block(st.orelse)
                     block(st.finalbody)
                 elif isinstance(st, ast.With):
+                    rebind({n.id for it in st.items if it.optional_vars is not None for n in ast.walk(it.optional_vars) if isinstance(n, ast.Name)})
                     block(st.body)
                 else:
                     if isinstance(st, ast.Assign) and len(st.targets) == 1 and isinstance(st.targets[0], ast.Name) \
                             and (alias_filter is None or alias_filter(st)) and _is_guardish(st.value):
-                        aliases[st.targets[0].id] = st.value
+                        val = _versioned(st.value, ver)
+                        rebind([st.targets[0].id])
+                        aliases[vname(st.targets[0].id)] = val
                     elif isinstance(st, (ast.Assign, ast.AnnAssign, ast.AugAssign)):
+                        rebind(stores(st))
                         tg = st.targets[0] if isinstance(st, ast.Assign) else st.target
                         if isinstance(tg, ast.Name):
-                            aliases.pop(tg.id, None)
+                            aliases.pop(vname(tg.id), None)
                     executed.append(st)
 
         try:
             try:
                 block(stmts)
-                leaves.append(Leaf(dict(assign), "fall", None, executed, order))
+                leaves.append(Leaf(dict(assign), "fall", None, executed, order, dict(ver)))
             except _Leave as l:
-                leaves.append(Leaf(dict(assign), l.outcome, l.value, executed, order))
+                leaves.append(Leaf(dict(assign), l.outcome, l.value, executed, order, dict(ver)))
         except NeedAtom as n:
             if len(assign) >= max_atoms:
                 raise Unsupported(f"more than {max_atoms} atoms in decided region (next: {n.key})", n.node)
@@ -221,7 +278,7 @@ def eval_leaf_value(leaf: Leaf, call_hook=None, sized=()) -> Any:
     """Evaluate the returned expression under the leaf's assignment (may raise NeedAtom)."""
     if leaf.value is None:
         return None
-    return _AliasEval(leaf.assign, {}, [], call_hook, sized).ev(leaf.value)
+    return _AliasEval(leaf.assign, {}, [], call_hook, sized).ev(_versioned(leaf.value, leaf.ver))
 
 
 def bool_function(stmts: list[ast.stmt], preset: dict[str, Any] | None = None, **kw: Any) -> list[tuple[dict[str, Any], bool, Leaf]]:
@@ -245,7 +302,7 @@ def bool_function(stmts: list[ast.stmt], preset: dict[str, Any] | None = None, *
             for val in dom(n.key):
                 a2 = dict(lf.assign)
                 a2[n.key] = val
-                work.append(Leaf(a2, lf.outcome, lf.value, lf.stmts, lf.evaluated))
+                work.append(Leaf(a2, lf.outcome, lf.value, lf.stmts, lf.evaluated, lf.ver))
     return rows
 
 
